@@ -1,3 +1,366 @@
-import Sop.Model.Erasure
+import Sop.Lemmas.Erasure
+/-! # C25 — erasure-coded blobs survive up to `p` damaged shards
+
+About `Variant.fixed` (the code with `proposed_fixes/C25-ec-decode.diff`): the theorems. About
+`Variant.orig` (the code as pinned): the counterexamples, each replayed on the real code by the
+directed corpus of `harness/cmd/c25`. -/
 namespace Sop.C25
+open Sop.Erasure
+
+/-- how many shard files differ from what `Add` wrote (absent, truncated, any byte changed) -/
+def damaged (files0 : List Bytes) (fs : List (Option Bytes)) : Nat :=
+  (fs.zip files0).countP fun x => x.1 != some x.2
+
+/-- "md5 detects the modelled corruption": a shard file that is present and differs from what was
+written at that position is either shorter than the 17-byte prefix or fails its own checksum.
+(A file in which only the pad-count byte changed does not satisfy this: that byte is not covered.) -/
+def ChecksumDetects (md5 : Bytes → Bytes) (files0 : List Bytes) (fs : List (Option Bytes)) : Prop :=
+  ∀ x ∈ fs.zip files0, ∀ b, x.1 = some b → b ≠ x.2 → metaSize ≤ b.length →
+    (b.take metaSize).drop 1 ≠ md5 (b.drop metaSize)
+
+/-- the shard bodies as `GetOne` hands them to `Decode` -/
+def bodies (fs : List (Option Bytes)) : List Shard := fs.map fun f => (rd f).1
+
+/-- "the damage is not itself a code word": if every shard is present and Reed–Solomon `Verify`
+accepts the set, it is the set that was written. Follows from the MDS law when at most `p` shards are
+damaged (`verify_pass_eq`); an assumption beyond that (the fast path of `Decode` trusts `Verify`). -/
+def NoAccidentalCodeword (C : Code) (data : Bytes) (fs : List (Option Bytes)) : Prop :=
+  verify C (bodies fs) = .pass → bodies fs = (cwOf C data).map some
+
+section
+variable {C : Code} (hC : C.Laws) (md5 : Bytes → Bytes) (hmd : ∀ b, (md5 b).length = 16)
+  (data : Bytes) (hdata : data ≠ []) (hd : 0 < C.d) (h256 : C.d < 256)
+  (files0 : List Bytes) (he : encodeFiles C md5 data = some files0)
+  (fs : List (Option Bytes)) (hlen : fs.length = files0.length)
+include hC hmd hdata hd h256 he hlen
+
+private theorem setup :
+    files0 = (cwOf C data).map (shardFile md5 C.d data.length) ∧ 0 < data.length ∧
+    (fs.zip (cwOf C data)).map (·.1) = fs ∧ (fs.zip (cwOf C data)).map (·.2) = cwOf C data ∧
+    fs.zip files0 = (fs.zip (cwOf C data)).map (fun x => (x.1, shardFile md5 C.d data.length x.2)) := by
+  have hpos : 0 < data.length := List.length_pos_iff.mpr hdata
+  have hf : files0 = (cwOf C data).map (shardFile md5 C.d data.length) := by
+    unfold encodeFiles encode at he
+    rw [if_neg (by omega)] at he
+    simp only [Option.map_some, Option.some.injEq] at he
+    exact he.symm
+  have hl2 : fs.length = (cwOf C data).length := by rw [hlen, hf, List.length_map]
+  refine ⟨hf, hpos, ?_, ?_, ?_⟩
+  · exact List.map_fst_zip (by omega)
+  · exact List.map_snd_zip (by omega)
+  · rw [hf, List.zip_map_right]
+    apply List.map_congr_left
+    intro x _; rfl
+
+private theorem detects_tr (hdet : ChecksumDetects md5 files0 fs) :
+    Detects md5 C.d data.length (fs.zip (cwOf C data)) := by
+  obtain ⟨_, _, _, _, hz⟩ := setup hC md5 hmd data hdata hd h256 files0 he fs hlen
+  intro x hx b hb hne hl
+  refine hdet (x.1, shardFile md5 C.d data.length x.2) ?_ b hb hne hl
+  rw [hz]
+  exact List.mem_map.mpr ⟨x, hx, rfl⟩
+
+private theorem intact_count :
+    (fs.zip (cwOf C data)).countP (intact md5 C.d data.length) + damaged files0 fs = C.d + C.p := by
+  obtain ⟨hf, hpos, h1, h2, hz⟩ := setup hC md5 hmd data hdata hd h256 files0 he fs hlen
+  unfold damaged
+  rw [hz, List.countP_map]
+  have hn : (fs.zip (cwOf C data)).length = C.d + C.p := by
+    have := congrArg List.length h2
+    rw [List.length_map] at this
+    rw [this]
+    exact cw_length hC (perShard_pos C.d data.length hd hpos) hd (split_length C.d data) (split_each C.d data hd)
+  rw [← hn, List.length_eq_countP_add_countP (intact md5 C.d data.length)]
+  congr 1
+  apply List.countP_congr
+  intro x _
+  simp [intact]
+
+/-- what the fixed `GetOne` returns, for ANY state of the shard files: the stored bytes or an error —
+never other bytes, never a panic. -/
+theorem C25_read_safe (hdet : ChecksumDetects md5 files0 fs) (hnc : NoAccidentalCodeword C data fs)
+    (repair : Bool) :
+    (∃ idxs, (getOne .fixed C md5 repair fs).1 = .ok data idxs) ∨ (getOne .fixed C md5 repair fs).1 = .err := by
+  obtain ⟨hf, hpos, h1, h2, hz⟩ := setup hC md5 hmd data hdata hd h256 files0 he fs hlen
+  have hdt := detects_tr hC md5 hmd data hdata hd h256 files0 he fs hlen hdet
+  rw [getOne_fixed_fst]
+  split
+  · exact Or.inr rfl
+  · have e : fs.map rd = (fs.zip (cwOf C data)).map fun x => rd x.1 := by
+      conv => lhs; rw [← h1, List.map_map]
+      rfl
+    have eb : bodies fs = ((fs.zip (cwOf C data)).map fun x => rd x.1).map (·.1) := by
+      unfold bodies; rw [← e, List.map_map]; rfl
+    rw [e]
+    by_cases hv : verify C (((fs.zip (cwOf C data)).map fun x => rd x.1).map (·.1)) = .pass
+    · rw [decode_fixed_fast hC md5 data hpos hd h256 hmd _ h2 hdt hv (by rw [← eb]; exact hnc (by rw [eb]; exact hv))]
+      split
+      · exact Or.inl ⟨_, rfl⟩
+      · exact Or.inr rfl
+    · rw [decode_fixed_slow hC md5 data hpos hd h256 hmd _ h2 hdt hv]
+      split
+      · exact Or.inl ⟨_, rfl⟩
+      · exact Or.inr rfl
+
+/-- **C25, read side**: at most `p` shard files damaged in any way the checksum detects ⇒ the fixed
+`GetOne` returns exactly the stored bytes. All `d ≥ 1`, all `p`, every size ≥ 1 (`size % d ≠ 0`
+included), any lawful code. -/
+theorem C25_read (hdam : damaged files0 fs ≤ C.p) (hdet : ChecksumDetects md5 files0 fs) (repair : Bool) :
+    ∃ idxs, (getOne .fixed C md5 repair fs).1 = .ok data idxs := by
+  obtain ⟨hf, hpos, h1, h2, hz⟩ := setup hC md5 hmd data hdata hd h256 files0 he fs hlen
+  have hdt := detects_tr hC md5 hmd data hdata hd h256 files0 he fs hlen hdet
+  have hcnt := intact_count hC md5 hmd data hdata hd h256 files0 he fs hlen
+  have hk : C.d ≤ (fs.zip (cwOf C data)).countP (intact md5 C.d data.length) := by omega
+  have e : fs.map rd = (fs.zip (cwOf C data)).map fun x => rd x.1 := by
+    conv => lhs; rw [← h1, List.map_map]
+    rfl
+  -- an intact file exists; its shard is read, and its metadata matches
+  obtain ⟨x, hx, hi⟩ := List.countP_pos_iff.mp (show 0 < (fs.zip (cwOf C data)).countP (intact md5 C.d data.length) by omega)
+  have hrx : rd x.1 = (some x.2, some (padCount C.d data.length :: md5 x.2)) := by
+    obtain ⟨f, c⟩ := x
+    simp only [intact, beq_iff_eq] at hi
+    subst hi
+    exact rd_file md5 C.d data.length hmd c
+  rw [getOne_fixed_fst, e]
+  rw [if_neg]
+  · by_cases hv : verify C (((fs.zip (cwOf C data)).map fun x => rd x.1).map (·.1)) = .pass
+    · have h2' := verify_pass_eq hC md5 data hpos hd h256 hmd _ h2 hdt hk (by rw [List.map_map] at hv; exact hv)
+      rw [decode_fixed_fast hC md5 data hpos hd h256 hmd _ h2 hdt hv (by rw [List.map_map]; exact h2')]
+      rw [if_pos]
+      · exact ⟨_, rfl⟩
+      · rw [List.any_eq_true]
+        refine ⟨rd x.1, List.mem_map.mpr ⟨x, hx, rfl⟩, ?_⟩
+        rw [hrx]
+        simp [metaMatches, hmd, metaSize]
+    · rw [decode_fixed_slow hC md5 data hpos hd h256 hmd _ h2 hdt hv, if_pos hk]
+      exact ⟨_, rfl⟩
+  · intro hall
+    rw [List.all_eq_true] at hall
+    have := hall (rd x.1) (List.mem_map.mpr ⟨x, hx, rfl⟩)
+    rw [hrx] at this
+    simp at this
+
+/-- beyond parity: fewer than `d` intact files and at least one shard body missing or altered ⇒ an error -/
+theorem C25_read_beyond (hdam : C.p < damaged files0 fs) (hbody : bodies fs ≠ (cwOf C data).map some)
+    (hdet : ChecksumDetects md5 files0 fs) (hnc : NoAccidentalCodeword C data fs) (repair : Bool) :
+    (getOne .fixed C md5 repair fs).1 = .err := by
+  obtain ⟨hf, hpos, h1, h2, hz⟩ := setup hC md5 hmd data hdata hd h256 files0 he fs hlen
+  have hdt := detects_tr hC md5 hmd data hdata hd h256 files0 he fs hlen hdet
+  have hcnt := intact_count hC md5 hmd data hdata hd h256 files0 he fs hlen
+  have e : fs.map rd = (fs.zip (cwOf C data)).map fun x => rd x.1 := by
+    conv => lhs; rw [← h1, List.map_map]
+    rfl
+  have eb : bodies fs = ((fs.zip (cwOf C data)).map fun x => rd x.1).map (·.1) := by
+    unfold bodies; rw [← e, List.map_map]; rfl
+  rw [getOne_fixed_fst]
+  split
+  · rfl
+  · rw [e, decode_fixed_slow hC md5 data hpos hd h256 hmd _ h2 hdt (by
+      intro hv; exact hbody (hnc (by rw [eb]; exact hv))), if_neg (by omega)]
+
+end
+
+/-- **C25, write side**: `Add` of a non-empty blob succeeds exactly when at most `p` shard writes fail -/
+theorem C25_write (C : Code) (md5 : Bytes → Bytes) (data : Bytes) (hdata : data ≠ []) (fail : List Bool)
+    (old : List (Option Bytes)) : (add C md5 data fail old).1 = true ↔ fail.count true ≤ C.p := by
+  have hpos : 0 < data.length := List.length_pos_iff.mpr hdata
+  unfold add encodeFiles encode
+  rw [if_neg (by omega)]
+  simp
+
+/-- … and an empty blob is refused whatever the drives do (`reedsolomon.Split`: `ErrShortData`) -/
+theorem C25_write_empty (C : Code) (md5 : Bytes → Bytes) (fail : List Bool) (old : List (Option Bytes)) :
+    (add C md5 [] fail old).1 = false := by
+  simp [add, encodeFiles, encode]
+
+/-- a tolerated write is a readable blob: the shards whose write failed are simply missing -/
+theorem C25_write_then_read {C : Code} (hC : C.Laws) (md5 : Bytes → Bytes) (hmd : ∀ b, (md5 b).length = 16)
+    (data : Bytes) (hdata : data ≠ []) (hd : 0 < C.d) (h256 : C.d < 256) (fail : List Bool)
+    (hfl : fail.length = C.d + C.p) (hok : (add C md5 data fail (List.replicate (C.d + C.p) none)).1 = true)
+    (repair : Bool) :
+    ∃ idxs, (getOne .fixed C md5 repair (add C md5 data fail (List.replicate (C.d + C.p) none)).2).1 = .ok data idxs := by
+  have hpos : 0 < data.length := List.length_pos_iff.mpr hdata
+  have hcnt := (C25_write C md5 data hdata fail _).mp hok
+  have he : encodeFiles C md5 data = some ((cwOf C data).map (shardFile md5 C.d data.length)) := by
+    unfold encodeFiles encode cwOf
+    rw [if_neg (by omega)]; rfl
+  have hcl : (cwOf C data).length = C.d + C.p :=
+    cw_length hC (perShard_pos C.d data.length hd hpos) hd (split_length C.d data) (split_each C.d data hd)
+  have hadd : (add C md5 data fail (List.replicate (C.d + C.p) none)).2 =
+      writeShards (List.replicate (C.d + C.p) none) ((cwOf C data).map (shardFile md5 C.d data.length)) fail := by
+    unfold add; rw [he]
+  rw [hadd]
+  -- a general fact about `writeShards` over a blank directory
+  have key : ∀ (n : Nat) (files : List Bytes) (fl : List Bool), files.length = n → fl.length = n →
+      (writeShards (List.replicate n none) files fl).length = n ∧
+      damaged files (writeShards (List.replicate n none) files fl) ≤ fl.count true ∧
+      ChecksumDetects md5 files (writeShards (List.replicate n none) files fl) := by
+    intro n
+    induction n with
+    | zero =>
+      intro files fl h1 h2
+      simp [writeShards, damaged, ChecksumDetects]
+    | succ n ih =>
+      intro files fl h1 h2
+      cases files with
+      | nil => simp at h1
+      | cons f files =>
+        cases fl with
+        | nil => simp at h2
+        | cons b fl =>
+          simp only [List.length_cons, Nat.add_right_cancel_iff] at h1 h2
+          obtain ⟨i1, i2, i3⟩ := ih files fl h1 h2
+          simp only [List.replicate_succ, writeShards]
+          refine ⟨by simp [i1], ?_, ?_⟩
+          · unfold damaged at i2 ⊢
+            simp only [List.zip_cons_cons, List.countP_cons, List.count_cons]
+            cases b <;> simp <;> omega
+          · intro x hx bb hb hne hl
+            simp only [List.zip_cons_cons, List.mem_cons] at hx
+            rcases hx with rfl | hx
+            · cases b <;> simp at hb
+              exact absurd hb.symm hne
+            · exact i3 x hx bb hb hne hl
+  obtain ⟨k1, k2, k3⟩ := key (C.d + C.p) ((cwOf C data).map (shardFile md5 C.d data.length)) fail
+    (by rw [List.length_map, hcl]) hfl
+  exact C25_read hC md5 hmd data hdata hd h256 _ he _ (by simp [k1, hcl]) (by omega) k3 repair
+
+/-! ## The hypotheses are satisfiable: a lawful code, a checksum, a damaged state -/
+
+private theorem find_mask (s : Bytes) : ∀ (n : Nat) (mask : List (Option Bytes)), IsMask mask (List.replicate n s) →
+    0 < mask.countP Option.isSome → mask.find? Option.isSome = some (some s) := by
+  intro n
+  induction n with
+  | zero => intro mask hm hc; cases mask <;> simp_all [IsMask]
+  | succ n ih =>
+    intro mask hm hc
+    cases mask with
+    | nil => simp [IsMask] at hm
+    | cons m ms =>
+      simp only [List.replicate_succ, IsMask] at hm
+      rcases hm.1 with rfl | rfl
+      · simp only [List.countP_cons, Option.isSome_none, Bool.false_eq_true, if_false, Nat.add_zero] at hc
+        simp [List.find?_cons, ih ms hm.2 hc]
+      · simp [List.find?_cons]
+
+/-- the MDS laws are satisfiable: the repetition code (`d = 1`, any `p`) -/
+theorem repCode_laws (p : Nat) : (repCode p).Laws where
+  parity_shape := by
+    intro ds L hds hl
+    cases ds with
+    | nil => simp [repCode] at hds
+    | cons s t =>
+      simp only [repCode, List.headD_cons, List.length_replicate, true_and]
+      intro x hx
+      rw [List.eq_of_mem_replicate hx]
+      exact hl s (List.mem_cons_self ..)
+  recon_spec := by
+    intro ds L mask hds _ hm hc
+    cases ds with
+    | nil => simp [repCode] at hds
+    | cons s t =>
+      cases t with
+      | cons _ _ => simp [repCode] at hds
+      | nil =>
+        simp only [repCode, List.headD_cons, List.singleton_append] at hm hc ⊢
+        rw [← List.replicate_succ] at hm
+        rw [find_mask s _ mask hm (by omega)]
+        simp [List.replicate_succ, Nat.add_comm]
+
+/-- a toy checksum with the right length -/
+def toyMd5 (b : Bytes) : Bytes := (b.foldl (· + ·) 7 % 256) :: List.replicate 15 0
+
+theorem toyMd5_length (b : Bytes) : (toyMd5 b).length = 16 := by simp [toyMd5]
+
+/-- the file of the blob `[1,2,3]` under `repCode p` and `toyMd5` (every shard is a copy) -/
+def f123 : Bytes := 0 :: toyMd5 [1, 2, 3] ++ [1, 2, 3]
+/-- the same file with one body byte flipped -/
+def f123c : Bytes := 0 :: toyMd5 [1, 2, 3] ++ [1, 9, 3]
+
+/-- non-vacuity of `C25_read`: one missing and one corrupted shard within `p = 2` — the very input
+that kills the pinned code (`C25_counterexample_nil_metadata`) — satisfies every hypothesis -/
+example : ∃ idxs, (getOne .fixed (repCode 2) toyMd5 false [none, some f123c, some f123]).1 = .ok [1, 2, 3] idxs :=
+  C25_read (repCode_laws 2) toyMd5 toyMd5_length [1, 2, 3] (by simp) (by decide) (by decide)
+    [f123, f123, f123] (by rfl) [none, some f123c, some f123] rfl (by decide)
+    (by
+      intro x hx b hb hne hl
+      simp only [List.zip_cons_cons, List.zip_nil_right, List.mem_cons, List.not_mem_nil, or_false] at hx
+      rcases hx with rfl | rfl | rfl
+      · simp at hb
+      · simp only [Option.some.injEq] at hb
+        subst hb
+        decide
+      · simp only [Option.some.injEq] at hb
+        exact absurd hb.symm hne) false
+
+/-! ## The pinned code (`Variant.orig`) violates the property: concrete witnesses
+
+Each is replayed on the real code by the directed corpus of `harness/cmd/c25`. -/
+
+/-- the full-strength statement, for either variant -/
+def Statement_C25 (v : Variant) : Prop :=
+  ∀ (C : Code), C.Laws → ∀ (md5 : Bytes → Bytes), (∀ b, (md5 b).length = 16) → ∀ (data : Bytes), data ≠ [] →
+    0 < C.d → C.d < 256 → ∀ files0, encodeFiles C md5 data = some files0 → ∀ fs : List (Option Bytes),
+    fs.length = files0.length → damaged files0 fs ≤ C.p → ChecksumDetects md5 files0 fs →
+    ∃ idxs, (getOne v C md5 false fs).1 = .ok data idxs
+
+theorem Statement_C25_fixed : Statement_C25 .fixed :=
+  fun _ hC md5 hmd data hdata hd h256 files0 he fs hlen hdam hdet =>
+    C25_read hC md5 hmd data hdata hd h256 files0 he fs hlen hdam hdet false
+
+/-- (1) a shard file shorter than its 17-byte prefix: a worker goroutine of `GetOne` slices out of range -/
+theorem C25_counterexample_short_file :
+    (getOne .orig (repCode 2) toyMd5 false [some [0, 0, 0, 0, 0], some f123, some f123]).1 = .panic := by decide
+
+/-- (2) one missing and one corrupted shard, within `p = 2`: `detectBadShardsThenReconstruct` slices the nil metadata entry -/
+theorem C25_counterexample_nil_metadata :
+    (getOne .orig (repCode 2) toyMd5 false [none, some f123c, some f123]).1 = .panic := by decide
+
+/-- (3) beyond parity (`p = 1`, two damaged): the corrupted shard is used to rebuild the missing one, `Verify`
+passes trivially, wrong bytes come back with a nil error -/
+theorem C25_counterexample_wrong_bytes :
+    (getOne .orig (repCode 1) toyMd5 false [none, some f123c]).1 = .ok [1, 9, 3] [0] := by decide
+
+/-- (4) a shard truncated after its prefix, within parity: `ErrShardSize`, the read fails -/
+theorem C25_counterexample_truncated :
+    (getOne .orig (repCode 2) toyMd5 false [some (f123.take 18), some f123, some f123]).1 = .err := by decide
+
+theorem C25_counterexample : ¬ Statement_C25 .orig := by
+  intro h
+  have := h (repCode 2) (repCode_laws 2) toyMd5 toyMd5_length [1, 2, 3] (by simp) (by decide) (by decide)
+    [f123, f123, f123] (by rfl) [some [0, 0, 0, 0, 0], some f123, some f123] rfl (by decide)
+    (by
+      intro x hx b hb hne hl
+      simp only [List.zip_cons_cons, List.zip_nil_right, List.mem_cons, List.not_mem_nil, or_false] at hx
+      rcases hx with rfl | rfl | rfl
+      · simp only [Option.some.injEq] at hb
+        subst hb
+        simp [metaSize] at hl
+      · simp only [Option.some.injEq] at hb
+        exact absurd hb.symm hne
+      · simp only [Option.some.injEq] at hb
+        exact absurd hb.symm hne)
+  rw [C25_counterexample_short_file] at this
+  obtain ⟨_, h⟩ := this
+  exact DecodeResult.noConfusion h
+
+/-! ## What the repair does not cover (open findings) -/
+
+/-- the pad-count byte is outside the checksum: with ONE shard file changed in that byte only (so
+`ChecksumDetects` does not hold) the fixed code still returns a blob of the wrong length -/
+theorem C25_pad_byte_unprotected :
+    (getOne .fixed (repCode 2) toyMd5 false [some (1 :: f123.drop 1), some f123, some f123]).1 = .ok [1, 2] [] := by decide
+
+/-- shard file `i` of blob `data` under the XOR code `d = 2, p = 1` -/
+def xfile (data : Bytes) (i : Nat) : Bytes := ((encodeFiles (xorCode 2) toyMd5 data).getD []).getD i []
+/-- shard file `i` of blob `a` with its body replaced by the body of blob `b`'s shard `i` (old checksum kept) -/
+def swapped (a b : Bytes) (i : Nat) : Bytes := (xfile a i).take 17 ++ (xfile b i).drop 17
+
+/-- without `NoAccidentalCodeword`: `p + 1 = 2` of 3 shards replaced by the bodies of another blob's
+shards (old checksums kept, so both fail their checksum) pass `Verify`, and the other blob is returned -/
+theorem C25_needs_no_accidental_codeword :
+    (getOne .fixed (xorCode 2) toyMd5 false
+      [some (swapped [1, 2, 3, 4] [9, 2, 3, 4] 0), some (xfile [1, 2, 3, 4] 1), some (swapped [1, 2, 3, 4] [9, 2, 3, 4] 2)]).1
+      = .ok [9, 2, 3, 4] [] := by decide
+
 end Sop.C25
